@@ -524,7 +524,7 @@ class DiskFile(VirtualFileContainer):
         file_data = []
         chunk_size = DiskConstants.HALF_TRACK_LEN
 
-        if len(self.buffer[pointer:]) < data_length:
+        if len(self.buffer[pointer:]) < min(data_length, chunk_size):
             raise VirtualFileValidationError("Unable to read data - insufficient bytes in buffer")
 
         # Skip over preamble if it exists
